@@ -41,6 +41,9 @@ TABLE: List[Entry] = [
     ("R-OFFSET-ROUNDTRIP", "decrease_max", None, {"C03", "C13", "C04"}),
     ("R-OFFSET-ROUNDTRIP", "increase_min", None, {"C03", "C13", "C04"}),
     ("R-OFFSET-ROUNDTRIP", "get_solution", None, {"C01", "C03", "C13", "C02"}),
+    # the two halves of one enforced ordering use different offsets: weaker filtering (not the largest fixpoint), nothing invalid is reported
+    ("R-ENFORCE-ENTAIL", None, "enforce-halves-disagree", {"C08"}),
+    ("R-ENFORCE-ENTAIL", None, None, {"C01", "C07"}),
     # ---- search loop -------------------------------------------------------------------------------------
     # the worker side of the enumeration: every solution of a part is delivered once (C11 / C12: the union reaches the caller)
     ("R-RESUME", "solve_and_queue", None, {"C02", "C11", "C12"}),
